@@ -203,6 +203,9 @@ define_ops! {
     // ---- part 2: comparison semantics
     cmp_all = |a: U, b: U| V::T(vec![(a == b).into_v(), (a != b).into_v(), (a < b).into_v(), (a <= b).into_v(), (a > b).into_v(), (a >= b).into_v(), a.cmp(&b).into_v(), a.partial_cmp(&b).map(|o| o as i8).into_v(), a.min(b).into_v(), a.max(b).into_v(), (h(&a) == h(&b)).into_v(), a.is_zero().into_v()]);
     // the same comparisons with both operands being the SAME object
+    // a constructor driven by a float: None, or a canonical value (its numeric accuracy is not claimed by any property)
+    approx_pow2 = |f: F64| Uint::<B, L>::approx_pow2(f);
+    approx_pow2_of_log2 = |a: U| Uint::<B, L>::approx_pow2(a.approx_log2());
     cmp_alias = |a: U| { let (x, y) = (&a, &a); V::T(vec![(x == y).into_v(), (x != y).into_v(), (x < y).into_v(), (x <= y).into_v(), (x > y).into_v(), (x >= y).into_v(), x.cmp(y).into_v(), x.partial_cmp(y).map(|o| o as i8).into_v(), (*x.min(y)).into_v(), (*x.max(y)).into_v(), (h(x) == h(y)).into_v(), x.is_zero().into_v()]) };
     routes = |a: U, b: U, e: U| { let r = a.wrapping_add(b); let r2 = b.wrapping_add(a); (r == e, r2 == e, h(&r) == h(&e), h(&r2) == h(&e), r.cmp(&e) as i8, e == Uint::from_limbs(r.into_limbs()) && r.into_limbs() == *r.as_limbs()) };
     // ---- part 3: rejecting constructors
@@ -428,7 +431,7 @@ impl Model for Closure {
         let args = [vu(&st.limbs), vu(x), V::n(n), V::n(a.code as usize)];
         EDGES.fetch_add(1, AO::Relaxed);
         let _ = take_noncanon();
-        let got = match std::panic::catch_unwind(std::panic::AssertUnwindSafe(|| dispatch(bits, Op::closure, &args))) {
+        let got = match vharness::runner::guarded(|| dispatch(bits, Op::closure, &args)) {
             Ok(v) => v,
             Err(_) => V::Panic,
         };
@@ -579,6 +582,7 @@ fn model(bits: usize, op: Op, args: &[V]) -> Expect {
             ]))
             .nt(true)
         }
+        approx_pow2 | approx_pow2_of_log2 => pred("None or Some(canonical value)", |g| matches!(g, V::None) || matches!(g, V::Some(x) if matches!(**x, V::U(_)))).nt(true),
         cmp_alias => model(bits, cmp_all, &[args[0].clone(), args[0].clone()]),
         routes => is(V::T(vec![V::B(true), V::B(true), V::B(true), V::B(true), V::I(0), V::B(true)])).nt(true),
         from_limbs | bits_from_limbs => {
@@ -794,6 +798,23 @@ fn c04(r: &Runner) {
                 let be: Vec<u8> = le.iter().rev().copied().collect();
                 exec(l, bits, Op::try_from_le_slice, &[V::Bytes(le)]);
                 exec(l, bits, Op::try_from_be_slice, &[V::Bytes(be)]);
+            });
+        }
+        {
+            // exponents: every integer 0..=BITS+2 and its neighbours by 0.5 and by one ulp, specials
+            let mut ex: Vec<f64> = vec![f64::NAN, f64::INFINITY, f64::NEG_INFINITY, -0.0, -1.0, -1.5, -2.0, 0.584, 0.585, 1e300, -1e300, f64::MIN_POSITIVE];
+            for k in 0..=bits + 2 {
+                let f = k as f64;
+                ex.extend([f, f + 0.5, f - 0.5, f64::from_bits(f.to_bits() + 1), if f > 0.0 { f64::from_bits(f.to_bits() - 1) } else { 0.0 }, f + 0.999_999, f + 0.415_037_499_278_843_8]);
+            }
+            r.universe(&format!("approx_pow2 on {} exponents (every integer 0..=BITS+2, +-0.5, +-1 ulp, specials)", ex.len()), bits, ex.len(), |i, l| {
+                l.states(1);
+                exec(l, bits, Op::approx_pow2, &[V::F(ex[i].to_bits())]);
+            });
+            let pv = pow2_nbhd(bits);
+            r.universe(&format!("approx_pow2(approx_log2(x)) on P({bits})"), bits, pv.len(), |i, l| {
+                l.states(1);
+                exec(l, bits, Op::approx_pow2_of_log2, &[vu(&pv[i])]);
             });
         }
         r.universe_seq("constants", bits, |l| {
